@@ -53,8 +53,10 @@ fn show_error(
         .and_then(|s| from_utf8(s).ok())
         .unwrap_or("(Failed to display line)");
     let line_no = bytecount::count(&buf[..line_start], b'\n') + 1;
-    let pos_in_line =
-        from_utf8(&buf[line_start..pos]).unwrap().chars().count() + 1;
+    let pos_in_line = String::from_utf8_lossy(&buf[line_start..pos])
+        .chars()
+        .count()
+        + 1;
     writeln!(
         out,
         "{prefix}{:>4}:{}\n\
